@@ -56,13 +56,14 @@ pub fn child(args: &[String]) {
         let v: serde_value::Value = serde_json::from_value(doc).unwrap();
         log4rs::config::Deserializers::default().deserialize::<dyn Append>("console", v).expect("console appender from configuration")
     } else {
-        Box::new(
-            log4rs::append::console::ConsoleAppender::builder()
-                .target(target)
-                .tty_only(args[1] == "true")
-                .encoder(Box::new(log4rs::encode::pattern::PatternEncoder::new(pattern)))
-                .build(),
-        )
+        // the builder's setters commute (Console.tla: a row is the settings, not the order they were given in): half of
+        // the variants name the target last
+        let enc = Box::new(log4rs::encode::pattern::PatternEncoder::new(pattern));
+        if nonl || aligned {
+            Box::new(log4rs::append::console::ConsoleAppender::builder().tty_only(args[1] == "true").encoder(enc).target(target).build())
+        } else {
+            Box::new(log4rs::append::console::ConsoleAppender::builder().target(target).tty_only(args[1] == "true").encoder(enc).build())
+        }
     } };
     let a = mk();
     for l in LEVELS {
